@@ -508,6 +508,67 @@ Proof.
   pose proof (c03_reverse_table_spec l (N.to_nat sz) i) as T. rewrite N2Nat.id in T. auto.
 Qed.
 
+
+(* ------------------------------------------------------------------ write through at(), set equality, comparisons *)
+Lemma c03_upd_nth_first g v : forall l low p,
+  nth_error l low = Some p -> c03s_has g p = true ->
+  (forall i q, (i < low)%nat -> nth_error l i = Some q -> c03s_has g q = false) ->
+  c03_upd_nth low v l = c03s_set_first g v l.
+Proof.
+  induction l as [|x r IH]; intros low p Hn Hp Hpre; [destruct low; discriminate|].
+  destruct low as [|low']; simpl in *.
+  - inversion Hn; subst. rewrite Hp. auto.
+  - rewrite (Hpre 0%nat x) by (auto; lia). f_equal. apply (IH low' p); auto.
+    intros i q Hi Hq. apply (Hpre (S i)); auto. lia.
+Qed.
+
+Lemma c03_setlocal_correct l g v : c03_gsorted l -> c03_size_ok l ->
+  c03_setlocal false l g v =
+  match find (c03s_has g) l with Some _ => (c03s_set_first g v l, C03Ok) | None => (l, C03RangeError) end.
+Proof.
+  intros GS SZ. destruct l as [|x r] eqn:El; [reflexivity|]. rewrite <- El in *.
+  destruct (c03_search_correct l g GS SZ) as (low & probe & p & H1 & H2 & H3 & H4 & _); [subst; discriminate|].
+  unfold c03_setlocal. rewrite H1. unfold c03_no_entries.
+  replace (length l =? 0)%nat with false by (subst; auto).
+  rewrite Nat2Z.id, H2, (c03_find_at l g low p) by auto.
+  destruct (c03_g p =? g) eqn:E; auto.
+  rewrite (c03_upd_nth_first g v l low p); auto.
+  intros i q Hi Hq. unfold c03s_has. apply Z.eqb_neq. specialize (H3 i q Hi Hq). lia.
+Qed.
+
+Lemma c03_set_first_same_key g v l : Forall2 c03_same_key l (c03s_set_first g v l).
+Proof.
+  assert (R : forall m : list c03_pair, Forall2 c03_same_key m m) by (induction m; constructor; auto; split; auto).
+  induction l as [|p r IH]; simpl; [constructor|].
+  destruct (c03s_has g p); constructor; auto; split; auto.
+Qed.
+
+Lemma c03_set_eq_all2 l l1 : c03_set_eq l l1 = c03s_all2 l l1.
+Proof.
+  unfold c03_set_eq. destruct (length l =? length l1)%nat eqn:E; simpl.
+  - apply Nat.eqb_eq in E. revert l1 E. induction l as [|p r IH]; intros [|q r1] E; simpl in *; try lia; auto.
+    unfold c03s_same_entry, c03_local_neq. rewrite (Z.eqb_sym (c03_g q)).
+    destruct (c03_g p =? c03_g q); simpl; auto.
+    destruct (c03_loc p =? c03_loc q)%N; simpl; auto.
+    destruct (c03_attr p =? c03_attr q)%N; simpl; auto.
+    destruct (Bool.eqb (c03_pub p) (c03_pub q)); simpl; auto.
+  - apply Nat.eqb_neq in E. revert l1 E. induction l as [|p r IH]; intros [|q r1] E; simpl in *; try lia; auto.
+    rewrite <- IH by lia. symmetry. apply andb_false_r.
+Qed.
+
+Lemma c03_all2_strip l l1 : c03s_all2 l l1 = true <-> map c03s_strip l = map c03s_strip l1.
+Proof.
+  revert l1. induction l as [|p r IH]; intros [|q r1]; simpl; split; intros H; try discriminate; auto.
+  - apply andb_true_iff in H. destruct H as [H1 H2]. apply IH in H2. rewrite H2. f_equal.
+    unfold c03s_same_entry in H1. repeat (apply andb_true_iff in H1; destruct H1 as [H1 ?]).
+    apply Z.eqb_eq in H1. apply N.eqb_eq in H0, H3. apply Bool.eqb_prop in H. unfold c03s_strip. congruence.
+  - inversion H as [[H1 H2 H3 H4 H5]]. apply andb_true_iff. split; [|apply IH; auto].
+    unfold c03s_same_entry. rewrite H1, H2, H3, H4, Z.eqb_refl, !N.eqb_refl, Bool.eqb_reflx. auto.
+Qed.
+
+Lemma c03_set_eq_strip_lemma l l1 : c03_set_eq l l1 = true <-> map c03s_strip l = map c03s_strip l1.
+Proof. rewrite c03_set_eq_all2. apply c03_all2_strip. Qed.
+
 (* ------------------------------------------------------------------ invariant and simulation (checking enabled) *)
 Definition c03_all_valid (l : list c03_pair) : Prop := Forall (fun p => c03s_valid p = true) l.
 
@@ -527,6 +588,14 @@ Lemma c03_filter_length (f : c03_pair -> bool) l : (length (filter f l) <= lengt
 Proof. induction l; simpl; auto. destruct (f a); simpl; lia. Qed.
 Lemma c03_filter_all_valid l : c03_all_valid (filter c03s_valid l).
 Proof. apply Forall_forall. intros p Hp. apply filter_In in Hp. tauto. Qed.
+
+Lemma c03_set_first_valid g v l : c03_all_valid l -> c03_all_valid (c03s_set_first g v l).
+Proof.
+  unfold c03_all_valid. induction 1 as [|p r Hp Hr IH]; simpl; [constructor|].
+  destruct (c03s_has g p); constructor; auto.
+Qed.
+Lemma c03_set_first_length g v l : length (c03s_set_first g v l) = length l.
+Proof. symmetry. apply c03_forall2_length, c03_set_first_same_key. Qed.
 
 Lemma c03_init_inv : c03_inv 0 c03_init.
 Proof. constructor; simpl; try constructor; intros; constructor. Qed.
@@ -597,6 +666,18 @@ Proof.
   - simpl. split; auto. split; [repeat split|]. constructor; auto.
   - (* reverse *) simpl in *. split; [apply c03_reverse_spec; auto|]. split; [repeat split|]. constructor; auto.
   - (* reverse, sized *) simpl in *. split; [apply c03_reverse_sized_spec; auto|]. split; [repeat split|]. constructor; auto.
+  - (* at(g).setLocal(v) *)
+    simpl in *. rewrite c03_setlocal_correct by auto.
+    destruct (find (c03s_has g) local) eqn:Ef; simpl.
+    + split; auto. split; [repeat split|]. constructor; simpl; auto.
+      all: try solve [eapply c03_sorted_forall2; [apply c03_set_first_same_key | auto]].
+      all: try solve [intros; apply c03_set_first_valid; auto].
+      all: try solve [rewrite c03_set_first_length; auto].
+    + split; auto. split; [repeat split|]. constructor; auto.
+  - (* set == set2 *)
+    simpl. unfold c03_seteq_out. rewrite c03_set_eq_all2. split; auto. split; [repeat split|]. constructor; auto.
+  - (* IndexPair comparisons *)
+    simpl. split; auto. split; [repeat split|]. constructor; auto.
 Qed.
 
 Lemma c03_run_cons chk legacy st op r :
@@ -651,6 +732,10 @@ Proof.
     eapply c03_sorted_forall2; [apply c03_set_nth_same_key | auto].
   - apply c03_sort_sorted.
   - rewrite <- c03_renumber_mapi. eapply c03_sorted_forall2; [apply c03_renumber_same_key | auto].
+  - destruct (find (c03s_has g) set); simpl; auto.
+    eapply c03_sorted_forall2; [apply c03_set_first_same_key | auto].
+  - destruct (find (c03s_has g) set); simpl; auto.
+    eapply c03_sorted_forall2; [apply c03_set_first_same_key | auto].
 Qed.
 Lemma c03_spec_run_sorted_lemma ops : forall ss, Sorted c03_key_le (c03s_set ss) ->
   Sorted c03_key_le (c03s_set (fst (c03_spec_run ss ops))).
@@ -730,6 +815,7 @@ Proof.
   - destruct (chk && negb rz); simpl; try lia. destruct (c03_mark k local); simpl; lia.
   - destruct (chk && negb rz); simpl; try lia. destruct (c03_merge local (c03_sort fresh) dl); simpl; lia.
   - destruct (chk && rz); simpl; lia.
+  - destruct (c03_setlocal legacy local g l); simpl; lia.
 Qed.
 Lemma c03_seqno_lemma chk legacy ops : forall st,
   c03_seq (fst (c03_run chk legacy st ops)) =
@@ -767,6 +853,10 @@ Proof.
     destruct (nth_error l0 (N.to_nat l)) as [[|]|]; discriminate.
   - unfold c03_reverse_sized, c03_tab_pair. destruct (c03_tab_fill _ local); try discriminate.
     destruct (nth_error l0 (N.to_nat l)) as [[|]|]; discriminate.
+  - unfold c03_setlocal. destruct (c03_search local g); simpl; try discriminate.
+    destruct (c03_no_entries legacy local probe); simpl; try discriminate.
+    destruct (nth_error local (Z.to_nat low)); simpl; try discriminate. destruct (c03_g c =? g); simpl; discriminate.
+  - unfold c03_cmp_out. destruct (nth_error local i), (nth_error local j); discriminate.
 Qed.
 
 (* without checking (NDEBUG) a history in which no call is made in the wrong state behaves identically *)
